@@ -1,13 +1,17 @@
 #!/usr/bin/env python3
-"""seedmeta.py <seed-dir> <label> <dest>: write /verif/seeded/<dest>/meta.json from the agent's meta.json and the
-results of tools/seedrun.sh (/tmp/seed/results/<label>*.txt)."""
-import json, os, re, sys, glob
-src, label, dest = sys.argv[1:4]
+"""seedmeta.py <seed-dir> <dest> <result-file>... : write /verif/seeded/<dest>/meta.json from the agent's meta.json and
+the result files of tools/seedrun.sh given in chronological order (the last one is the current state of the checks)."""
+import json, os, re, sys
+src, dest = sys.argv[1:3]
+files = sys.argv[3:]
 V = os.path.dirname(os.path.dirname(os.path.abspath(__file__)))
 agent = json.load(open(os.path.join(src, "meta.json")))
 res = {}
-checks = {}
-for path in sorted(glob.glob("/tmp/seed/results/%s*.txt" % label)):
+runs = []
+for path in files:
+    if not os.path.exists(path):
+        continue
+    checks = {}
     for line in open(path):
         line = line.strip()
         m = re.match(r"check (C\d+) rc=(\d+)", line)
@@ -16,11 +20,19 @@ for path in sorted(glob.glob("/tmp/seed/results/%s*.txt" % label)):
         elif "=" in line and not line.startswith("check"):
             k, v = line.split("=", 1)
             res[k] = v
-caught = sorted(c for c, rc in checks.items() if rc == 1)
-missed = sorted(c for c, rc in checks.items() if rc == 0)
-incon = sorted(c for c, rc in checks.items() if rc not in (0, 1))
+    if checks:
+        runs.append(checks)
+def summary(checks):
+    return {"caught_by": sorted(c for c, rc in checks.items() if rc == 1),
+            "not_caught_by": sorted(c for c, rc in checks.items() if rc == 0),
+            "inconclusive": sorted(c for c, rc in checks.items() if rc not in (0, 1))}
+merged = {}
+for r in runs:
+    merged.update(r)
+prop = agent.get("property")
+first = runs[0].get(prop) if runs else None
 meta = {
-    "property": agent.get("property"),
+    "property": prop,
     "summary": agent.get("summary"),
     "needs": agent.get("needs"),
     "files": agent.get("files"),
@@ -30,12 +42,13 @@ meta = {
         "existing_suite_passes_with_change": res.get("suite_with_patch") == "ok",
         "demo_fails_with_change": res.get("demo_with_patch_rc") not in (None, "0"),
         "demo_passes_without_change": res.get("demo_without_patch_rc") == "0",
-        "how": "tools/seedrun.sh in a scratch worktree of /repo: go build ./..., go test -vet=off -count=1 -skip Demo ./..., the demo with the patch applied and after git apply -R",
+        "how": "tools/seedrun.sh in a scratch worktree of /repo: go build ./..., go test -vet=off -count=1 -skip Demo ./..., the demo with the patch applied and after git apply -R patch.diff",
     },
-    "checks_quick_tier": {"caught_by": caught, "not_caught_by": missed, "inconclusive": incon,
-                          "how": "VERIF_REPO=<worktree> ./check <ID> quick (default seed) for every check"},
+    "own_check_first_attempt": {0: "missed", 1: "caught", None: "not run"}.get(first, "inconclusive"),
+    "checks_quick_tier_now": summary(merged),
+    "how_checked": "VERIF_REPO=<worktree with the change> ./check <ID> quick (default seed); 'first attempt' is the state of the checks before they saw this change",
 }
 d = os.path.join(V, "seeded", dest)
 os.makedirs(d, exist_ok=True)
 json.dump(meta, open(os.path.join(d, "meta.json"), "w"), indent=1)
-print(dest, "caught by", caught, "incon", incon)
+print(dest, prop, "first:", meta["own_check_first_attempt"], "now caught by", meta["checks_quick_tier_now"]["caught_by"])
